@@ -31,7 +31,9 @@ type Fault struct {
 	Cut     *int   `json:"cut,omitempty"`     // deliver only this many bytes of the response frame
 	DelayMs int    `json:"delayMs,omitempty"` // delay the response
 	Chunks  []int  `json:"chunks,omitempty"`  // deliver the response in pieces
-	Report  bool   `json:"report,omitempty"`  // the operation is expected to report the injected code
+	Stall   int    `json:"stall,omitempty"`   // > 0: deliver this many bytes, pause StallMs, deliver the rest
+	StallMs int    `json:"stallMs,omitempty"`
+	Report  bool   `json:"report,omitempty"` // the operation is expected to report the injected code
 }
 
 type Op struct {
@@ -41,6 +43,8 @@ type Op struct {
 	Arg        int    `json:"arg,omitempty"`
 	Fault      *Fault `json:"fault,omitempty"`
 	DeadlineMs int    `json:"deadlineMs,omitempty"`
+	SleepMs    int    `json:"sleepMs,omitempty"`   // pause before the operation starts
+	HoldReqMs  int    `json:"holdReqMs,omitempty"` // pause inside doRequest (write lock held), so that other callers queue up
 }
 
 type Script struct {
@@ -126,7 +130,15 @@ func (r *run) opOfG() int {
 func (r *run) hook(ev string, a []interface{}) {
 	switch ev {
 	case "conn.req.begin":
-		r.rec.Emit(trace.Event{"ev": "reqbegin", "o": r.opOfG(), "id": int(a[0].(int32))})
+		o := r.opOfG()
+		r.rec.Emit(trace.Event{"ev": "reqbegin", "o": o, "id": int(a[0].(int32))})
+		if r.sc != nil {
+			for i := range r.sc.Ops {
+				if r.sc.Ops[i].O == o && r.sc.Ops[i].HoldReqMs > 0 {
+					time.Sleep(time.Duration(r.sc.Ops[i].HoldReqMs) * time.Millisecond)
+				}
+			}
+		}
 	case "conn.req":
 		err, _ := a[1].(error)
 		r.rec.Emit(trace.Event{"ev": "req", "o": r.opOfG(), "id": int(a[0].(int32)), "ok": err == nil})
@@ -299,6 +311,9 @@ func (r *run) faultReply(req *fakekafka.Request, op *Op) *fakekafka.Reply {
 	}
 	if len(f.Chunks) > 0 {
 		rep.Chunks = f.Chunks
+	}
+	if f.Stall > 0 {
+		rep.StallAt, rep.StallFor = f.Stall, time.Duration(f.StallMs)*time.Millisecond
 	}
 	return &rep
 }
@@ -556,6 +571,16 @@ func setup(sc *Script) (*run, *fakenet.Conn, error) {
 		ev := trace.Event{"ev": "reply", "o": o, "id": int(req.CorrID), "api": int(req.ApiKey), "v": int(req.Version),
 			"kerr": kerr, "cut": cut, "len": flen, "unread": unread, "sig": sig}
 		rep.OnSend = func() { r.rec.Emit(ev) }
+		if rep.StallAt > 0 {
+			// the first piece is what a cut at that byte would deliver; the rest follows after the pause
+			st := rep.StallAt
+			if st > flen-1 {
+				st = flen - 1
+			}
+			ev["cut"] = st
+			id := int(req.CorrID)
+			rep.OnRest = func() { r.rec.Emit(trace.Event{"ev": "replyrest", "o": o, "id": id}) }
+		}
 		return rep
 	}
 	return r, nc, nil
@@ -578,8 +603,9 @@ func Run(sc *Script) []trace.Event {
 	ops := make([]interface{}, len(sc.Ops))
 	for i := range sc.Ops {
 		op := &sc.Ops[i]
-		f := map[string]interface{}{"err": 0, "cut": -1, "report": false}
+		f := map[string]interface{}{"err": 0, "cut": -1, "report": false, "stall": 0}
 		if op.Fault != nil {
+			f["stall"] = op.Fault.Stall
 			f["err"] = op.Fault.Err
 			f["report"] = op.Fault.Report
 			if op.Fault.Cut != nil {
@@ -662,6 +688,9 @@ func Run(sc *Script) []trace.Event {
 			defer wg.Done()
 			<-startAll
 			for _, op := range list {
+				if op.SleepMs > 0 {
+					time.Sleep(time.Duration(op.SleepMs) * time.Millisecond)
+				}
 				r.rec.Emit(trace.Event{"ev": "opbegin", "o": op.O, "kind": op.Kind})
 				res := r.timed(conn, r.cl, op)
 				emitEnd(op, res)
